@@ -162,8 +162,16 @@ func universe(nib, keylen int) (keys [][]byte, nibs [][]int) {
 	return
 }
 
+// tiny: one-byte values. Full nodes whose consensus encoding stays below 32 bytes then have no hash and are embedded
+// in their parent instead of being stored standalone (the design model assumes hashed full nodes, so histories
+// recorded in this mode are validated on the observables only).
+var tiny bool
+
 // value id -> 32-byte value and (for every third id) metadata; values of >= 32 bytes make every full node hashed
 func valBytes(id int) []byte {
+	if tiny {
+		return []byte{byte(id)}
+	}
 	b := bytes.Repeat([]byte{byte(0xA0 + id%7)}, 32)
 	binary.BigEndian.PutUint16(b, uint16(id))
 	return b
@@ -177,6 +185,12 @@ func metaBytes(id int) []byte {
 func decodeVal(val, meta []byte) int {
 	if len(val) == 0 {
 		return 0
+	}
+	if tiny {
+		if len(val) != 1 || !bytes.Equal(meta, metaBytes(int(val[0]))) {
+			return 9999
+		}
+		return int(val[0])
 	}
 	if len(val) != 32 {
 		return 9999
@@ -219,7 +233,7 @@ func newWorld(c config, mode string, seed int64) *world {
 		}
 		return int(x)
 	}
-	w.emit(trace.Ev{"e": "Reset", "mode": mode, "seed": seed, "cfgname": c.String(),
+	w.emit(trace.Ev{"e": "Reset", "mode": mode, "seed": seed, "cfgname": c.String(), "tiny": tiny,
 		"cfg": map[string]any{"hf": fac(c.HF), "df": fac(c.DF), "skip": strs(skip), "cache": c.CacheMB, "ttl": int(c.TTL),
 			"nib": c.Nib, "keylen": c.KeyLen, "names": strs(c.Names), "main": strs(main)}})
 	return w
@@ -709,7 +723,13 @@ func (w *world) ancestorAt(b ver, maj uint32) ver {
 	return b
 }
 
-func (w *world) fresh() int { w.nextID++; return w.nextID }
+func (w *world) fresh() int {
+	w.nextID++
+	if tiny && w.nextID > 120 {
+		w.nextID = 3
+	}
+	return w.nextID
+}
 
 // ---- configurations ---------------------------------------------------------------------------------------------
 
@@ -970,6 +990,7 @@ func main() {
 	keylen := flag.Int("keylen", 2, "key length in nibbles (even)")
 	depth := flag.Int("depth", 3, "exhaustive: sequence length")
 	steps := flag.Int("steps", 10, "seeded: steps per run")
+	flag.BoolVar(&tiny, "tiny", false, "one-byte values (full nodes without hash are embedded); observables only")
 	cfgsel := flag.String("cfgs", "", "exhaustive/inflight: comma list of matrix indices (default: a fixed few)")
 	flag.Parse()
 	if *keylen%2 != 0 {
